@@ -89,7 +89,12 @@ func (ci *ChunkInfo) updateNeighborChunkInfo(rootCid, cid boson.Address, overlay
 	}
 	bv, ok := ci.ct.presence[rc][over]
 
-	v := ci.getCidSort(rootCid, cid)
+	v, isData := ci.getCidSort(rootCid, cid)
+	if !isData {
+		// only data chunks have a bit: a manifest, root or intermediate chunk read
+		// or retrieved under the file context must not mark data chunk 0
+		return nil
+	}
 	bv.Set(v)
 	bit := BitVector{B: bv.Bytes(), Len: bv.Len()}
 	if overlay.Equal(ci.addr) {
